@@ -1,6 +1,7 @@
 import Driver.Codec
 import Driver.Segment
 import Driver.Wal
+import Driver.Verifier
 open Driver
 
 def runStateless (f : String → String) : IO Unit := do
@@ -23,5 +24,6 @@ def main (args : List String) : IO UInt32 := do
   match args with
   | ["codec"] => runStateless codecLine; return 0
   | ["wal"] => runStateful ({} : WalSt) walLine; return 0
+  | ["verifier"] => runStateful ({} : VerSt) verLine; return 0
   | ["segment"] => runStateful ({} : SegSt) segLine; return 0
   | _ => IO.eprintln "usage: driver <suite>"; return 2
